@@ -373,7 +373,9 @@ def declare_rules(run):
         src = deep(f, hv, 7)
         want_src = "Iterator::collect(Iterator::cloned(iter(Index::index(%s, Range{start: 0_usize, end: %s}))))" % (X, L)
         pushes = [(bi, t) for bi, t in _calls(f, "Vec::push") if op_local(t["args"][0]) is not None and _root_of_ref(f, t["args"][0]) == hl]
-        okc = src.replace("slice::iter", "iter").endswith(want_src.split("Iterator::collect", 1)[1]) and len(pushes) == 1 and deep(f, pushes[0][1]["args"][1]) == kname
+        base_ok = src.replace("slice::iter", "iter").endswith(want_src.split("Iterator::collect", 1)[1]) or \
+            src == "slice::to_vec(Index::index(%s, Range{start: 0_usize, end: %s}))" % (X, L)        # the same copy of enclosing[0..level]
+        okc = base_ok and len(pushes) == 1 and deep(f, pushes[0][1]["args"][1]) == kname
         why = "context built from `%s` with %d push(es)" % (src, len(pushes))
     run.check(okc, R, R + "|declare|new-context", f.loc(), "the context after a declaration is the first `level` enclosing labels plus the declared name",
               "the context recorded for the declaration is not enclosing[0..level] + name (%s): later `.child` names would resolve against the wrong parent" % why)
@@ -462,6 +464,33 @@ def lookup_rules(run):
                              or any(g.blocks[b]["term"]["k"] == "call" and (g.blocks[b]["term"].get("callee") or "").endswith("FromResidual::from_residual") and g.blocks[b]["term"]["dest"]["l"] == 0 for b in nreg))
             else:
                 ok = False
+        if not ok and len(gets) == 1 and not rec:
+            # the same descent written as a loop: a cursor starts at the parent; each path component, in order, is looked up among the
+            # cursor's children; a missing name yields nothing; the child becomes the cursor; the cursor is the answer
+            gb, gt = gets[0]
+            scope = deep(g, gt["args"][0], 5)
+            key = deep(g, gt["args"][1], 5)
+            mcur = re.fullmatch(r"SymbolManager::get_children\(P1, (var:\w+)\)", scope)
+            if mcur and re.fullmatch(r"Iterator::next\((?:slice::iter\()?P3\)?\)@Some\.0", key):
+                cur = [l for l in range(g.arg_count + 1, len(g.locals)) if g.local_name(l) and ("var:" + g.local_name(l)) == mcur.group(1)]
+                okl = len(cur) == 1
+                if okl:
+                    ds = g.full_defs(cur[0])
+                    exprs = sorted(deep(g, d[3]["rv"]["op"], 7) if d[0] == "stmt" and d[3]["rv"]["k"] == "use" else "?" for d in ds)
+                    child = "Some{HashMap::get(%s, %s)@" % (scope, key)
+                    okl = len(ds) == 2 and "P2" in exprs and any(e.startswith(child) and e.endswith(".0}") for e in exprs)
+                    # a missing name: None, by `?` or written out
+                    tests = option_tests(g, lambda d: d.startswith("HashMap::get(" + scope))
+                    okl = okl and bool(tests)
+                    if okl:
+                        sb, some, none = tests[0]
+                        nreg = T.dominated_region(g, none, sb)
+                        okl = any(g.blocks[b]["term"]["k"] == "call" and (g.blocks[b]["term"].get("callee") or "").endswith("FromResidual::from_residual") and g.blocks[b]["term"]["dest"]["l"] == 0 for b in nreg) or \
+                            any(st["k"] == "assign" and st["place"]["l"] == 0 and st["rv"]["k"] == "agg" and st["rv"].get("variant") == "None" for b in nreg for st in g.blocks[b]["stmts"])
+                    # the answer is the cursor
+                    okl = okl and any(d[0] == "stmt" and d[3]["rv"]["k"] == "use" and op_local(d[3]["rv"]["op"]) is not None and g.copy_root(op_local(d[3]["rv"]["op"])) == cur[0] for d in g.full_defs(0))
+                ok = okl
+                why = "loop form: cursor `%s`, key `%s`" % (mcur.group(1), key)
         run.check(ok, R, R + "|descend|" + name.split("::<T>::")[-1], g.loc(), "%s descends through the first name of the path in the children of the parent and recurses on the rest; a missing name yields nothing" % name.split("::<T>::")[-1],
                   "%s no longer descends name by name (%s)" % (name, why))
     g = run.anchor(R, "SymbolManager::<T>::get_by_name")
@@ -704,6 +733,7 @@ PARSE_SITES = ["asm::parser::symbol::parse", "asm::parser::directive_const::pars
 
 def parse_rules(run):
     """dots are counted one per Dot token, starting from zero, and that count is what the node records"""
+    prog = run.prog
     for name in PARSE_SITES:
         f = run.anchor(R, name)
         if f is None:
@@ -719,6 +749,24 @@ def parse_rules(run):
         ls = sorted(ls)
         ok = len(ls) == 1
         why = "the node's level is not recorded from a single counter"
+        node_f, node_l = f, (ls[0] if ls else None)
+        if ok:
+            # the dots may be counted by a helper shared between the parsers: `(span, level, name) = parse_decl_name(..)?`
+            d0 = f.full_defs(ls[0])
+            if len(d0) == 1 and d0[0][0] == "stmt" and d0[0][3]["rv"]["k"] == "use":
+                m_h = re.fullmatch(r"(\w+(?:::\w+)*)\(.*\)@(?:Continue|Ok)\.0\.(\d+)", deep(f, d0[0][3]["rv"]["op"], 5))
+                if m_h:
+                    hs = [h for h in prog.real_fns() if h.id.startswith("asm::parser::") and h.id.endswith("::" + m_h.group(1).split("::")[-1])]
+                    if len(hs) == 1:
+                        h = hs[0]
+                        k = int(m_h.group(2))
+                        for b2, s2, st2 in h.stmts():
+                            if st2["k"] == "assign" and st2["rv"]["k"] == "agg" and st2["rv"].get("agg") == "tuple" and len(st2["rv"]["ops"]) > k:
+                                us = [1 for b3, s3, st3 in h.stmts() if st3["k"] == "assign" and st3["place"]["l"] == 0 and st3["rv"]["k"] == "agg" and st3["rv"].get("variant") == "Ok"
+                                      and op_local(st3["rv"]["ops"][0]) is not None and h.copy_root(op_local(st3["rv"]["ops"][0])) == h.copy_root(st2["place"]["l"])]
+                                if us and op_local(st2["rv"]["ops"][k]) is not None:
+                                    f = h
+                                    ls = [h.copy_root(op_local(st2["rv"]["ops"][k]))]
         if ok:
             l = ls[0]
             defs = f.full_defs(l)
@@ -752,6 +800,8 @@ def parse_rules(run):
                         okd = True
                 ok = okd
                 why = "the increment is not on the `a Dot token was consumed` edge"
+            if ok and f is not node_f:
+                f, l = node_f, node_l      # back to the parser that builds the node
             if ok:
                 # recorded in the node
                 rec = False
